@@ -78,14 +78,30 @@ def r_star_table(ctx: Ctx, rule: str) -> None:
         def on_node(ai, node, env, shapes=shapes, reached=reached, ucalls=ucalls):
             if node.func is sf or node.root is sf:
                 reached.add(node)
-            if node.func is sf and node.op == "call" and node.callee is not None and node.callee.kind == "user":
+            if (node.func is sf or node.root is sf) and node.op == "call" and node.callee is not None and node.callee.kind == "user":
                 ucalls.add(node)
                 c = node.ast
-                if len(c.args) == 1 and not c.keywords and isinstance(c.args[0], ast.Name) and c.args[0].id == pa:
+
+                def is_arg(e_) -> bool:
+                    """the element itself: star_function's parameter, also seen through the parameter of a helper spliced in"""
+                    if node.func is sf:
+                        return isinstance(e_, ast.Name) and e_.id == pa
+                    fr_, env_, leaf_ = ctx.vals.trace(node.func, node.env, e_)
+                    return fr_ is sf and env_ is None and isinstance(leaf_, ast.Name) and leaf_.id == pa
+
+                def is_func(e_) -> bool:
+                    if node.func is sf:
+                        return isinstance(e_, ast.Name) and e_.id == pf
+                    fr_, env_, leaf_ = ctx.vals.trace(node.func, node.env, e_)
+                    return fr_ is sf and env_ is None and isinstance(leaf_, ast.Name) and leaf_.id == pf
+
+                if not is_func(c.func):
+                    shapes.add("other:" + ast.unparse(c))
+                elif len(c.args) == 1 and not c.keywords and not isinstance(c.args[0], ast.Starred) and is_arg(c.args[0]):
                     shapes.add(0)
-                elif len(c.args) == 1 and not c.keywords and isinstance(c.args[0], ast.Starred) and isinstance(c.args[0].value, ast.Name) and c.args[0].value.id == pa:
+                elif len(c.args) == 1 and not c.keywords and isinstance(c.args[0], ast.Starred) and is_arg(c.args[0].value):
                     shapes.add(1)
-                elif not c.args and len(c.keywords) == 1 and c.keywords[0].arg is None and isinstance(c.keywords[0].value, ast.Name) and c.keywords[0].value.id == pa:
+                elif not c.args and len(c.keywords) == 1 and c.keywords[0].arg is None and is_arg(c.keywords[0].value):
                     shapes.add(2)
                 else:
                     shapes.add("other:" + ast.unparse(c))
